@@ -22,6 +22,9 @@ type Val struct {
 	Tuple []Val
 	// Orig: for slices, the set of parameter names whose backing array this value may share.
 	Orig map[string]bool
+	// Full: statically known to have no spare capacity (cap == len): appending to it never writes into the
+	// backing array it shares with its origin.
+	Full bool
 }
 
 type Closure struct {
@@ -137,6 +140,8 @@ type Exec struct {
 	binders  int
 	nameCount map[string]int
 	pureTyped map[string]bool
+	ifaceAsked map[string]types.Type
+	implDone   map[string]bool
 	neutralMemo map[*types.Func]int
 	specs    map[string]*specInfo
 	visitedStack []func(*State, Term) Term
@@ -285,7 +290,7 @@ func (e *Exec) mergeVal(c Term, a, b Val, hint string) Val {
 		e.sc.Assert(Eq(f, t))
 		t = f
 	}
-	return Val{T: t, GT: a.GT, Orig: unionOrig(a.Orig, b.Orig)}
+	return Val{T: t, GT: a.GT, Orig: unionOrig(a.Orig, b.Orig), Full: a.Full && b.Full}
 }
 
 func unionOrig(a, b map[string]bool) map[string]bool {
@@ -1180,6 +1185,18 @@ func (e *Exec) assignedIn(nodes ...ast.Node) (map[types.Object]bool, bool) {
 				if t := info.TypeOf(y.X); t != nil {
 					if mt, ok := t.Underlying().(*types.Map); ok {
 						n, s := e.mapHeap(mt)
+						if id, isId := ast.Unparen(y.X).(*ast.Ident); isId {
+							// m[k] = v on a plain variable: only the map m refers to is written
+							if e.lastHeapNames == nil {
+								e.lastHeapNames = map[string]bool{}
+							}
+							if e.heapSorts == nil {
+								e.heapSorts = map[string]string{}
+							}
+							e.lastHeapNames[n+"\x00"+id.Name] = true
+							e.heapSorts[n] = s
+							return
+						}
 						wholeHeap(n, s)
 						return
 					}
@@ -1256,6 +1273,20 @@ func (e *Exec) assignedIn(nodes ...ast.Node) (map[types.Object]bool, bool) {
 	for _, n := range nodes {
 		if n != nil {
 			visit(n)
+		}
+	}
+	// a cell named by a variable that is itself reassigned in this code is not a fixed cell: widen to the heap
+	for key := range e.lastHeapNames {
+		parts := strings.SplitN(key, "\x00", 2)
+		if len(parts) != 2 || parts[1] == "" {
+			continue
+		}
+		for o := range out {
+			if o.Name() == parts[1] {
+				delete(e.lastHeapNames, key)
+				e.lastHeapNames[parts[0]] = true
+				break
+			}
 		}
 	}
 	return out, heapW
